@@ -52,6 +52,7 @@ ExprS(e)        == [k |-> "expr", e |-> e]
 Ret(e)          == [k |-> "ret", e |-> e]
 Load(ns)        == [k |-> "load", ns |-> ns]                  \* load("m.star", n = "n", ...)
 Pass            == [k |-> "pass"]
+BadAssign(n)    == [k |-> "badassign", n |-> n]               \* n = = "b<i>"  -- does not parse; the second = is a marked occurrence
 
 -----------------------------------------------------------------------------
 (* spellings, as code points *)
@@ -70,7 +71,7 @@ S_kv == <<58, 32>>                   S_k == <<107>>              S_sp == <<32>>
 
 NameCps(n) == CASE n = "xx" -> <<120, 120>> [] n = "yy" -> <<121, 121>> [] n = "zz" -> <<122, 122>>
                 [] n = "ff" -> <<102, 102>> [] n = "gg" -> <<103, 103>> [] n = "hh" -> <<104, 104>>
-                [] n = "u"  -> <<117>>      [] n = "w" -> <<119>>       [] n = "vvv" -> <<118, 118, 118>>
+                [] n = "u"  -> <<117>>      [] n = "=" -> <<61>>
 
 RECURSIVE Spaces(_)
 Spaces(n) == IF n = 0 THEN <<>> ELSE <<32>> \o Spaces(n - 1)
@@ -183,6 +184,9 @@ WalkS(s, cx, p) ==
       [] s.k = "ret"  -> (Line(cx, T(S_return) \o WalkE(s.e, cx, p \o <<1, 1>>)))
       [] s.k = "load" -> (Plain(cx, T(S_load \o S_q \o S_mstar \o S_q) \o LoadArgs(s.ns, 1, cx) \o T(S_rparen)))
       [] s.k = "pass" -> (Line(cx, T(S_pass)))
+      [] s.k = "badassign" ->
+           (Line(cx, O(s.n, TRUE, cx.chain, "assign", FALSE) \o T(<<32, 61, 32>>)
+                     \o O("=", FALSE, cx.chain, "mark", FALSE) \o T(S_sp) \o BTag(cx)))
 
 ModuleScope == <<>>
 Tokens(mod, d) == IF mod = <<>> THEN <<>> ELSE Block(mod, 1, [chain |-> <<ModuleScope>>, ind |-> 0, d |-> d], <<>>)
@@ -221,5 +225,7 @@ Resolve(occs, i) ==
         m == FirstBinder(occs, o.chain, 1, o.name)
         ts == IF m = 0 THEN {} ELSE BindsIn(occs, o.chain[m], o.name)
     IN [depth |-> m, nscopes |-> Len(o.chain), targets |-> ts, first |-> IF ts = {} THEN 0 ELSE Min(ts),
-        scope |-> IF m = 0 THEN <<0>> ELSE o.chain[m]]
+        scope |-> IF m = 0 THEN <<0>> ELSE o.chain[m],
+        \* how many of the enclosing scopes bind the name (>= 2: the use is a shadowing case)
+        binders |-> Cardinality({k \in 1..Len(o.chain) : BindsIn(occs, o.chain[k], o.name) # {}})]
 =============================================================================
